@@ -294,6 +294,23 @@ pub fn long_filters() -> Vec<Input> {
             v.push(Input::Text(s.into_bytes()));
         }
     }
+    // many wildcard levels (counts around the widths a counter might have): valid ("+/" repeated, a final "#") and not
+    for n in [255usize, 256, 257, 512, 1_024, 4_096] {
+        v.push(Input::Text(format!("{}#", "+/".repeat(n)).into_bytes()));
+        v.push(Input::Text(format!("{}+", "+/".repeat(n)).into_bytes()));
+        v.push(Input::Text("#/".repeat(n).into_bytes()));
+        v.push(Input::Text(format!("$share/g/{}a", "+/".repeat(n)).into_bytes()));
+        v.push(Input::Text("+".repeat(n).into_bytes()));
+    }
+    // share names that are blank, contain blanks, control characters or U+0000 (the last one invalid)
+    for name in [" ", "  ", "\t", "\n", "\u{a0}", "\u{3000}", " g", "g ", "a\0b", "\0", "g\u{7f}"] {
+        for tail in ["a", "#", "+/x", " ", "/"] {
+            v.push(Input::Text(format!("$share/{}/{}", name, tail).into_bytes()));
+        }
+    }
+    for blank in [" ", "\t", "\u{a0}", " / ", "+/ ", " /#", "a/ /b"] {
+        v.push(Input::Text(blank.as_bytes().to_vec()));
+    }
     v
 }
 
@@ -883,6 +900,15 @@ pub fn long_names() -> Vec<Input> {
             }
             s.push_str(tail);
             v.push(Input::Text(s.into_bytes()));
+        }
+    }
+    // many forbidden characters (counts around the widths a counter might have), alone, mixed and between separators
+    for n in [255usize, 256, 257, 511, 512, 513, 1_024, 65_535] {
+        for unit in ["+", "#", "+#", "+/", "#/", "a+", "/#a"] {
+            let s: String = unit.repeat(n.div_ceil(unit.matches(['+', '#']).count().max(1)));
+            if s.len() <= 70_000 {
+                v.push(Input::Text(s.into_bytes()));
+            }
         }
     }
     v.push(Input::Text(Vec::new()));
